@@ -153,14 +153,14 @@ func mutations(c *ctx, b *built) []mutation {
 		if len(d.Txs) == 0 {
 			return false
 		}
-		d.Txs = append(d.Txs, cloneBytes(d.Txs[t.Draw(len(d.Txs))]))
+		d.Txs = append(d.Txs, cloneBytes(d.Txs[pickTx(t, len(d.Txs))]))
 		return true
 	})
 	T("remove", func(d *kproto.Data) bool {
 		if len(d.Txs) == 0 {
 			return false
 		}
-		at := t.Draw(len(d.Txs))
+		at := pickTx(t, len(d.Txs))
 		d.Txs = append(d.Txs[:at], d.Txs[at+1:]...)
 		return true
 	})
@@ -168,7 +168,7 @@ func mutations(c *ctx, b *built) []mutation {
 		if len(d.Txs) < 2 {
 			return false
 		}
-		i := t.Draw(len(d.Txs))
+		i := pickTx(t, len(d.Txs))
 		j := (i + 1 + t.Draw(len(d.Txs)-1)) % len(d.Txs)
 		if bytes.Equal(d.Txs[i], d.Txs[j]) {
 			return false
@@ -180,13 +180,13 @@ func mutations(c *ctx, b *built) []mutation {
 		if len(d.Txs) == 0 {
 			return false
 		}
-		return flip(d.Txs[t.Draw(len(d.Txs))])
+		return flip(d.Txs[pickTx(t, len(d.Txs))])
 	})
 	T("replace", func(d *kproto.Data) bool {
 		if len(d.Txs) == 0 {
 			return false
 		}
-		at := t.Draw(len(d.Txs))
+		at := pickTx(t, len(d.Txs))
 		d.Txs[at] = types.Transactions{mkTx(uint64(at), t.Draw(len(txKeys.priv)), 5000+int64(t.Draw(100)), nil)}.ToProto().Txs[0]
 		return true
 	})
